@@ -148,7 +148,8 @@ def spSolveTrace (s : St M P) (A : M) : List Call :=
 def spSolveSt (s : St M P) (A : M) : St M P :=
   if spRefresh s && S.reg A then { s with lu := some A, factorize := false, newA := false } else s
 
-/-- `SpSolve.linsolve` = `scipy.sparse.linalg.spsolve` (NaN vector and a warning when singular) -/
+/-- `SpSolve.linsolve` = `scipy.sparse.linalg.spsolve` (NaN vector and a warning when singular; for some
+singular matrices SuperLU raises `RuntimeError` instead — the harness maps both to one outcome `fail`) -/
 def spLinOut (A : M) (b : V) : Out V := if S.reg A then .vec (S.sol A b) else .vec (S.nan b)
 
 def stepOut (lib : Lib) (s : St M P) : Op M V → Out V
